@@ -346,13 +346,101 @@ class SharedAttr:
         obj.__dict__[self.slot] = value
 
 
+class VEvent:
+    """threading.Event whose wait() is modelled as blocking (a scheduling point that disables the caller until set)."""
+
+    def __init__(self):
+        self._flag = False
+
+    def is_set(self):
+        c = _ctl
+        if c is not None and c.me() is not None and not c.aborted:
+            c.point("event?", None)
+        return self._flag
+
+    def set(self):
+        c = _ctl
+        if c is not None and c.me() is not None and not c.aborted:
+            c.point("event.set", None)
+        self._flag = True
+
+    def clear(self):
+        c = _ctl
+        if c is not None and c.me() is not None and not c.aborted:
+            c.point("event.clear", None)
+        self._flag = False
+
+    def wait(self, timeout=None):  # noqa: ARG002
+        c = _ctl
+        if c is not None and c.me() is not None:
+            c.point("event.wait", None, wait=lambda: self._flag, wait_desc="event.wait")
+        return self._flag
+
+
+class VLock:
+    """threading.Lock / RLock stand-in: acquire is a scheduling point that disables the caller while the lock is held by another thread."""
+
+    def __init__(self):
+        self._owner = None
+        self._depth = 0
+
+    def acquire(self, blocking=True, timeout=-1):  # noqa: ARG002
+        c = _ctl
+        me = c.me() if c is not None else None
+        if me is not None:
+            if not blocking:
+                c.point("lock.try", None)
+                if self._owner not in (None, me):
+                    return False
+            else:
+                c.point("lock.acquire", None, wait=lambda: self._owner in (None, me), wait_desc="lock.acquire")
+        self._owner = me if me is not None else "uncontrolled"
+        self._depth += 1
+        return True
+
+    def release(self):
+        c = _ctl
+        if c is not None and c.me() is not None and not c.aborted:
+            c.point("lock.release", None)
+        self._depth -= 1
+        if self._depth <= 0:
+            self._owner, self._depth = None, 0
+
+    def locked(self):
+        return self._owner is not None
+
+    def __enter__(self):
+        self.acquire()
+        return self
+
+    def __exit__(self, *a):
+        self.release()
+        return False
+
+
 class ThreadingProxy:
-    """Stands in for the name `threading` inside a module: Thread is virtual, the rest is real."""
+    """Stands in for the name `threading` inside a module: Thread, Event and Lock are virtual, the rest is real."""
 
     Thread = VThread
+    Event = VEvent
+    Lock = VLock
+    RLock = VLock
 
     def __getattr__(self, name):
         return getattr(_real_threading, name)
+
+
+class QueueProxy:
+    """Stands in for the name `queue` inside a module: Queue is virtual, the rest (Empty, Full) is real."""
+
+    Queue = VQueue
+    SimpleQueue = VQueue
+    LifoQueue = None
+
+    def __getattr__(self, name):
+        import queue as _q
+
+        return getattr(_q, name)
 
 
 def make_line_tracer(files_prefixes):
